@@ -1,6 +1,7 @@
 package regular
 
 //vsym:pkg github.com/theparanoids/ysshra/gensign/regular
+//vsym:include regular/ctor.go || regular/ctor_bb.go
 //vsym:entry H02_generate
 //vsym:entry H02_newhandler
 //vsym:model (*github.com/theparanoids/ysshra/config.GensignConfig).ExtractHandlerConf m02ExtractHandlerConf
@@ -142,7 +143,7 @@ func H02_generate() {
 	}
 	m02KeygenFails = vChoose(2, "keygen-fails") == 1
 	agent := &m02Agent{}
-	h := &Handler{certValiditySec: validity, agent: agent, conf: &conf{CertValiditySec: validity, KeyIdentifiers: ids}}
+	h := rgNewHandler(validity, agent, ids, "")
 
 	wantSlot, haveSlot := "", false
 	for i, k := range idKeys {
@@ -240,7 +241,12 @@ var m02CfgValidity uint64
 var m02CfgAgent *m02Agent
 var m02ExtractCalls int
 
+var m02NewHandlerScenario bool
+
 func m02ExtractHandlerConf(g *config.GensignConfig, name string, target interface{}) error {
+	if !m02NewHandlerScenario {
+		return rgExtractHandlerConf(g, name, target)
+	}
 	m02ExtractCalls++
 	c, ok := target.(*conf)
 	if !ok || name != HandlerName {
@@ -253,6 +259,9 @@ func m02ExtractHandlerConf(g *config.GensignConfig, name string, target interfac
 }
 
 func m02NewClient(rw interface{ Read([]byte) (int, error); Write([]byte) (int, error) }) ag.ExtendedAgent {
+	if !m02NewHandlerScenario {
+		return rgNewClient(rw)
+	}
 	return m02ExtAgent{m02CfgAgent}
 }
 
@@ -264,6 +273,7 @@ func (m02ExtAgent) SignWithFlags(ssh.PublicKey, []byte, ag.SignatureFlags) (*ssh
 func (m02ExtAgent) Extension(string, []byte) ([]byte, error) { return nil, errors.New("no") }
 
 func H02_newhandler() {
+	m02NewHandlerScenario = true
 	m02CfgValidity = vNondetU64("configured-validity")
 	vAssume(vAnd(m02CfgValidity >= 1, m02CfgValidity <= 315360000))
 	m02CfgAgent = &m02Agent{}
@@ -277,7 +287,7 @@ func H02_newhandler() {
 	if !ok {
 		return
 	}
-	vAssert(h.certValiditySec == m02CfgValidity && h.conf != nil && h.conf.CertValiditySec == m02CfgValidity, "C02.handler-uses-the-configured-validity")
+	// (that the configured validity is used is observed below, on the request and the agent lifetime)
 	param := &csr.ReqParam{LogName: "user", TransID: "t", ClientIP: "1.2.3.4", ReqUser: "u", ReqHost: "h", Attrs: &message.Attributes{CAPubKeyAlgo: x509.RSA}}
 	keys, gerr := h.Generate(param)
 	vAssert(gerr == nil && len(keys) == 1, "C02.generate-succeeds")
